@@ -6,6 +6,7 @@ import (
 	"container/list"
 	"errors"
 	"fmt"
+	"github.com/tencent/goom/erro"
 	"os"
 	"path"
 	"path/filepath"
@@ -342,6 +343,66 @@ func TestC19(t *testing.T) {
 			b.Interface(&iv).Method("Put").As(func(ctx *mocker.IContext, n *Node, xs ...string) error { return nil }).Return(&BadErr{5})
 			rec("iface -> %d %v", iv.Get(k, "g"), iv.Put(cyc, "x", "y") != nil)
 		})
+		// refused configurations: the panic a caller sees (whole text, every line, and the texts along its cause chain)
+		for _, rc := range []struct {
+			name string
+			do   func()
+		}{
+			{"iface Apply, callback lacks a parameter", func() {
+				var j I
+				b.Interface(&j).Method("Get").Apply(func(ctx *mocker.IContext, a int) int { return 0 })
+			}},
+			{"iface Apply, callback has the context only", func() {
+				var j I
+				b.Interface(&j).Method("Get").Apply(func(ctx *mocker.IContext) int { return 0 })
+			}},
+			{"iface Apply, no context parameter", func() {
+				var j I
+				b.Interface(&j).Method("Get").Apply(func(a int, s string) int { return 0 })
+			}},
+			{"iface As, template lacks a parameter", func() {
+				var j I
+				b.Interface(&j).Method("Get").As(func(ctx *mocker.IContext, a int) int { return 0 }).Return(1)
+			}},
+			{"iface unknown method", func() { var j I; b.Interface(&j).Method("Nope") }},
+			{"func Apply, parameter missing", func() { b.Func(F2).Apply(func(a int) (int, string) { return 0, "" }) }},
+			{"func Apply, result missing", func() { b.Func(F2).Apply(func(a int, s string) int { return 0 }) }},
+			{"func Apply, parameter size", func() { b.Func(F1).Apply(func(a int8) int { return 0 }) }},
+			{"func Apply, not a function", func() { b.Func(F1).Apply(5) }},
+			{"func When, too few arguments", func() { b.Func(F2).When(1) }},
+			{"func Return, too few values", func() { b.Func(F2).Return(1) }},
+			{"func Return, no value", func() { b.Func(F2).Return() }},
+			{"func Return, value size", func() { b.Func(F1).Return(int8(1)) }},
+			{"method Apply, receiver missing", func() { b.Struct(&T{}).Method("M").Apply(func(a int, s string) int { return 0 }) }},
+			{"method unknown", func() { b.Struct(&T{}).Method("Nope").Return(1) }},
+			{"not a function", func() { b.Func(5).Return(1) }},
+		} {
+			func() {
+				defer func() {
+					r := recover()
+					if r == nil {
+						rec("refused %s: accepted", rc.name)
+						return
+					}
+					txt := strings.ReplaceAll(fmt.Sprint(r), "\n", " | ")
+					if i := strings.Index(txt, "goroutine "); i > 0 {
+						txt = txt[:i] // a stack dump names frames of the logging wrapper; the message in front of it counts
+					}
+					rec("refused %s: PANIC %T %s", rc.name, r, txt)
+					if err, ok := r.(error); ok {
+						for c, n := erro.Cause(err), 0; c != nil && n < 6; c, n = erro.Cause(c), n+1 {
+							ct := strings.ReplaceAll(c.Error(), "\n", " | ")
+							if i := strings.Index(ct, "goroutine "); i > 0 {
+								ct = ct[:i]
+							}
+							rec("refused %s: cause %d %T %s", rc.name, n, c, ct)
+						}
+					}
+				}()
+				rc.do()
+			}()
+			b.Reset()
+		}
 		try("iface unmocked method", func() {
 			var j I
 			b2 := mocker.Create()
